@@ -234,6 +234,8 @@ func c04(r *Report) {
 	})
 
 	r.Guard("C04.R3", "the upstream connection and response body are released on every exit", func() {
+		errorsReturnedRule(r, conn, false)
+
 		// the connection connect() hands to the tunnel carries no leftover time limit
 		// and no abortive-close setting: a deadline armed for the CONNECT handshake is
 		// disarmed, for reading and for writing, on every path to the successful
